@@ -20,6 +20,7 @@ RULE = ("Hypothesis: (a) arbitrary streams of 0-60 vocabulary tokens drawn class
         "-5..6). For (b) additionally info_time_bar[i] = onset - start of its grid bar and info_time never decreases. "
         "Non-trivial: the stream holds a note token after a bar or signature token. Distinct by case digest.")
 RULE = RULE + " Round f: tokeniser objects that annotated and detokenised another stream before."
+RULE = RULE + " Round h: pitch ranges starting at 66..69."
 ASSUMPTIONS = ["annotations of non-note tokens (nan or imputed values) are not part of the statement beyond their presence"]
 TIERS = {"quick": dict(shards=8, examples=1200), "thorough": dict(fuzz_runs=20000, fuzz_shards=4, shards=16, examples=12000)}
 
@@ -53,6 +54,8 @@ def _arbitrary(draw, shard, nshards):
     cfg["velocity_bins"] = draw(st.integers(1, 6))
     cfg["ppqn"] = draw(st.sampled_from([None, None, 24, 12, 48, 96, 480, 10, 7]))
     lo = cfg["pitch_range"][0]
+    if draw(st.integers(0, 3)) == 0:
+        lo = draw(st.sampled_from([69, 68, 67, 66, 0, 127, 57, 81]))       # around the imputation default (A4 = 69) and the range ends
     cfg["pitch_range"] = [lo, min(127, lo + draw(st.integers(0, 3)))]
     tok = T.make_tokeniser(cfg)
     cls = _classes(list(tok.dictionary))
